@@ -59,6 +59,10 @@ type Case struct {
 	StartWAL bool   `json:"wal"`
 	Compress bool   `json:"lz4,omitempty"`
 	Ops      []Op   `json:"ops"`
+	// Intrude: while LiteFS captures a WAL transaction (the first file-system mutation of CommitWAL) two other
+	// connections try their luck - a RESTART checkpoint and a one-frame write transaction. The capture runs before the
+	// write lock is released, so both must find the database busy and change nothing.
+	Intrude bool `json:"intrude,omitempty"`
 }
 
 // V is a violation found while running a case.
@@ -106,6 +110,10 @@ type runner struct {
 	hist []string
 
 	lastLTX *oracle.LTXFile
+
+	armed, intruding bool
+	intruded         int
+	intruderGotIn    string
 }
 
 func (r *runner) viol(key, format string, args ...any) {
@@ -162,8 +170,32 @@ func trimStack(st []byte) string {
 	return strings.Join(keep, "\n")
 }
 
+// intrude is called from inside CommitWAL (through the OS layer) when the case asks for it.
+func (r *runner) intrude(op, call, name string) error {
+	if !r.c.Intrude || !r.armed || r.intruding || !strings.HasPrefix(op, "COMMITWAL") {
+		return nil
+	}
+	r.intruding = true
+	defer func() { r.intruding = false }()
+	r.armed = false
+	r.intruded++
+	k := pager.NewConn(r.node.M, "db", 7, r.c.PageSize)
+	if err := k.Checkpoint("RESTART", 0); err == nil {
+		r.intruderGotIn += "checkpoint "
+	}
+	k.Close()
+	w := pager.NewConn(r.node.M, "db", 8, r.c.PageSize)
+	if res := w.RunWTx(pager.WTx{Frames: []uint32{2}, Outcome: "commit"}, r.img); res.Committed {
+		r.intruderGotIn += "writer "
+	}
+	w.Close()
+	return nil
+}
+
 func (r *runner) start() error {
-	n, err := lab.StartPrimary(r.dir, lab.NodeConfig{Compress: r.c.Compress})
+	n, err := lab.StartPrimary(r.dir, lab.NodeConfig{Compress: r.c.Compress, WrapOS: func(inner litefs.OS) litefs.OS {
+		return &lab.HookOS{Inner: inner, Before: r.intrude}
+	}})
 	if err != nil {
 		return err
 	}
@@ -439,8 +471,14 @@ func (r *runner) wtx(tx pager.WTx) bool {
 	prev := r.img
 	var res pager.WTxResult
 	what := "wtx-" + tx.Outcome
+	r.armed = true
 	if !r.guarded(what, func() { res = r.a.RunWTx(tx, r.img) }) {
 		return false
+	}
+	r.armed = false
+	if r.intruderGotIn != "" {
+		r.viol(r.prop+"/capture-after-release/"+strings.ReplaceAll(strings.TrimSpace(r.intruderGotIn), " ", "+"), "while LiteFS was capturing the transaction another connection got in (%s): the capture must run before the write lock is released", r.intruderGotIn)
+		r.intruderGotIn = ""
 	}
 	if res.Busy {
 		r.res.Harness = "unexpected SQLITE_BUSY in a single-writer program at " + res.ErrStep
